@@ -1,0 +1,8 @@
+//go:build verif
+
+package starttracker
+
+// VerifState exposes the three start-up flags (verification builds only).
+func (st *StartTracker) VerifState() (listing, store, pass bool) {
+	return st.initialListing.Load(), st.initialStore.Load(), st.initialReceiveAndLoad.Load()
+}
